@@ -275,6 +275,7 @@ func runC04(c *gen.Ctx) error {
 	}
 	c04Feedback(c)
 	c04InGen(c)
+	c04SrvGen(c)
 	c04LoopGen(c)
 	c04CliGen(c)
 	c04ArgsGen(c)
